@@ -605,15 +605,16 @@ impl Xot {
         let value = self.value(node);
 
         let top = match value {
-            // if it's nested content, we create a new top element
-            Value::Document => self.new_document(),
-            // this is really an outer dummy element, reusing the name
-            Value::Element(element) => self.new_element(element.name()),
+            // nested content: the copy of the node itself is the top of the
+            // new tree (no scratch node is created and freed along the way,
+            // so cloning leaves the arena's free list alone)
+            Value::Document | Value::Element(_) => self.new_node(value.clone()),
             // if it's not a nested value, simply clone the contents
             _ => {
                 return self.new_node(value.clone());
             }
         };
+        let source = node;
 
         let edges = self.all_traverse(node).collect::<Vec<_>>();
 
@@ -621,6 +622,10 @@ impl Xot {
         for open_close in edges {
             match open_close {
                 NodeEdge::Start(node) => {
+                    if node == source {
+                        // the top has been copied already
+                        continue;
+                    }
                     let value = self.value(node);
                     let value_type = value.value_type();
                     if value_type == ValueType::Document {
@@ -633,24 +638,14 @@ impl Xot {
                     }
                 }
                 NodeEdge::End(node) => {
-                    if self.value_type(node) != ValueType::Element {
+                    if node == source || self.value_type(node) != ValueType::Element {
                         continue;
                     }
                     current = self.parent(current).unwrap();
                 }
             }
         }
-
-        if self.is_element(top) {
-            // remove the temporary element
-            let cloned_node = self.first_child(top).unwrap();
-            // we can remove it as it won't have any attributes or prefixes
-            self.remove_dangerously(top);
-            cloned_node
-        } else {
-            // it's a document
-            top
-        }
+        top
     }
 
     /// Clone a node and its descendants into a new unattached tree.
